@@ -65,6 +65,7 @@ type c31Msg struct {
 	Tickets []c31Tk
 	JSON    bool
 	VTs     []*block.VerificationTicket // set when the tickets were materialized at generation time (ticket bursts)
+	Late    bool                        // the worker picks the message up when its processing context has already run out
 }
 
 func c31Materialize(e *e3Engine, tks []c31Tk, hash, otherHash string) []*block.VerificationTicket {
@@ -228,9 +229,16 @@ func c31WireEntity(meta string, src datastore.Entity, jsonCodec bool) (datastore
 
 // c31Dispatch hands one queued block message to the real message handlers; the two worker hops
 // (blockVerifyC, notarizationBlockProcessC) are emptied synchronously.
+// c31Late: the message in flight is processed with a context that has already run out (a busy or stalled worker): no
+// verification can complete, so nothing the message carries may count.
+var c31Late bool
+
 func c31Dispatch(mc *Chain, msg *BlockMessage) {
 	ctx, cancel := context.WithTimeout(context.Background(), 20*time.Second)
 	defer cancel()
+	if c31Late {
+		cancel()
+	}
 	switch msg.Type {
 	case MessageVerify:
 		mc.HandleVerifyBlockMessage(ctx, msg)
@@ -348,6 +356,7 @@ func TestC31_Notarization(t *testing.T) {
 		var msgs []c31Msg
 		for i := 0; i < nMsgs; i++ {
 			m := c31Msg{Kind: kinds[rapid.IntRange(0, len(kinds)-1).Draw(t, "msgKind")], JSON: rapid.IntRange(0, 3).Draw(t, "json") == 0}
+			m.Late = rapid.IntRange(0, 9).Draw(t, "late") == 6
 			switch m.Kind {
 			case "ticket":
 				if rapid.IntRange(0, 2).Draw(t, "burst") == 0 {
@@ -511,7 +520,12 @@ func TestC31_Notarization(t *testing.T) {
 				}
 				if qm := next(40 * time.Millisecond); qm != nil {
 					validHere, total, _ := account(qm)
+					c31Late = m.Late
 					c31Dispatch(mc, qm)
+					c31Late = false
+					if m.Late {
+						st.Class("processed_with_expired_context/" + m.Kind)
+					}
 					trace = append(trace, fmt.Sprintf("#%d %s %v -> processed", mi, m.Kind, m.Tickets))
 					st.Class("processed/" + m.Kind)
 					if total >= thr && len(validHere) < thr {
